@@ -207,38 +207,10 @@ func runTransfer(e *Env, cm *protocol.Mux, plans []*SessPlan, opt XferOpt) ([]*S
 		opt.Watchdog = 900 * time.Second
 	}
 	var mu sync.Mutex
-	byID := map[string]*liveSess{}
-	early := map[string]net.Conn{}
 	lives := make([]*liveSess, len(plans))
 	for i, p := range plans {
 		lives[i] = &liveSess{plan: p, res: &SessResult{Idx: p.Idx}, scCh: make(chan net.Conn, 1)}
 	}
-	stopAccept := make(chan struct{})
-	// server accept loop
-	go func() {
-		for {
-			c, err := e.Srv.Accept()
-			if err != nil {
-				return
-			}
-			id := sessionID(c)
-			mu.Lock()
-			ls := byID[id]
-			if ls == nil {
-				early[id] = c
-			}
-			mu.Unlock()
-			if ls != nil {
-				ls.scCh <- c
-			}
-			select {
-			case <-stopAccept:
-				return
-			default:
-			}
-		}
-	}()
-
 	done := make(chan struct{})
 	var all sync.WaitGroup
 	var lastProgress time.Time = time.Now()
@@ -269,12 +241,8 @@ func runTransfer(e *Env, cm *protocol.Mux, plans []*SessPlan, opt XferOpt) ([]*S
 			id := sessionID(cc)
 			mu.Lock()
 			ls.res.ID = id
-			byID[id] = ls
-			if c, ok := early[id]; ok {
-				ls.scCh <- c
-				delete(early, id)
-			}
 			mu.Unlock()
+			ls.scCh = e.Expect(id)
 			var wg sync.WaitGroup
 			wg.Add(2)
 			go func() { defer wg.Done(); writeLoop(cc, p, 0, ls.res, &mu) }()
@@ -353,7 +321,6 @@ func runTransfer(e *Env, cm *protocol.Mux, plans []*SessPlan, opt XferOpt) ([]*S
 		timedOut = true
 	}
 	cancel()
-	close(stopAccept)
 	if timedOut {
 		// unblock everything
 		for _, ls := range lives {
